@@ -28,7 +28,9 @@ if [ $applies = yes ]; then
     (cd "$wt" && timeout 1200 go test -vet=off -count=1 ./... >"$logdir/$name.suite.log" 2>&1) && { suite=pass; break; }
     grep -q "took too long" "$logdir/$name.suite.log" || break
   done
-  if [ "$onrepo" = "--on-repo" ]; then
+  if [ -n "${SEEDEVAL_NOCHECK:-}" ]; then
+    out=""
+  elif [ "$onrepo" = "--on-repo" ]; then
     if git -C /repo apply "$sd/patch.diff"; then
       out=$(/verif/bin/gmcheck all --tier quick --no-evidence 2>&1 | grep -v '^   ')
       git -C /repo checkout -- . ; git -C /repo clean -fdq
